@@ -9,4 +9,11 @@ open Sth.Generated
 /-- C14_concurrent: every access of a FileCache field from an exported method holds c.lock exclusively -/
 theorem C14_methods_atomic : fileCacheAllLocked = true ∧ fileCacheRows ≥ 50 := by decide
 
+/-- … and every exported method is ONE critical section (`c.lock.Lock()` has one call site in it): the sequential model
+    `Sth/Model/FileCache.lean` takes each method as one atomic step, which an Unlock/Lock pair inside a method would break -/
+theorem C14_methods_single_section :
+    fileCacheSections.map (·.1) = ["FileCache.Cap", "FileCache.Clear", "FileCache.Close", "FileCache.Len", "FileCache.Open",
+      "FileCache.Remove", "FileCache.SetCacheSize", "FileCache.SetOnEvicted", "FileCache.Stats"] ∧
+    fileCacheSections.all (·.2 == 1) = true := by decide
+
 end Sth.Obligations
